@@ -512,10 +512,14 @@ where
 
     match f(state) {
         Ok(state) => {
+            #[cfg(pest_parser_pest_verif)]
+            state.verif_record_final(true);
             let len = state.queue.len();
             Ok(new(Rc::new(state.queue), input, None, 0, len))
         }
         Err(mut state) => {
+            #[cfg(pest_parser_pest_verif)]
+            state.verif_record_final(false);
             let variant = if state.reached_call_limit() {
                 ErrorVariant::CustomError {
                     message: "call limit reached".to_owned(),
@@ -624,6 +628,10 @@ impl<'i, R: RuleType> ParserState<'i, R> {
     #[inline]
     fn inc_call_check_limit(mut self: Box<Self>) -> ParseResult<Box<Self>> {
         if self.call_tracker.limit_reached() {
+            #[cfg(pest_parser_pest_verif)]
+            crate::verif::emit(|| crate::verif::Event::CallRefused {
+                count: self.call_tracker.current_call_limit.map_or(0, |c| c.0),
+            });
             return Err(self);
         }
         self.call_tracker.increment_depth();
@@ -665,6 +673,13 @@ impl<'i, R: RuleType> ParserState<'i, R> {
         let actual_pos = self.position.pos();
         // Remember index of the `self.queue` element that will be associated with this `rule`.
         let index = self.queue.len();
+        #[cfg(pest_parser_pest_verif)]
+        crate::verif::emit(|| crate::verif::Event::RuleEnter {
+            rule: alloc::format!("{:?}", rule),
+            pos: actual_pos,
+            lookahead: self.lookahead as u8,
+            atomicity: self.atomicity as u8,
+        });
 
         let (pos_attempts_index, neg_attempts_index) = if actual_pos == self.attempt_pos {
             (self.pos_attempts.len(), self.neg_attempts.len())
@@ -755,6 +770,8 @@ impl<'i, R: RuleType> ParserState<'i, R> {
                 if new_state.parse_attempts.enabled {
                     try_add_rule_to_stack(&mut new_state);
                 }
+                #[cfg(pest_parser_pest_verif)]
+                new_state.verif_rule_exit(rule, true, actual_pos);
                 Ok(new_state)
             }
             Err(mut new_state) => {
@@ -777,6 +794,8 @@ impl<'i, R: RuleType> ParserState<'i, R> {
                     new_state.queue.truncate(index);
                 }
 
+                #[cfg(pest_parser_pest_verif)]
+                new_state.verif_rule_exit(rule, false, actual_pos);
                 Err(new_state)
             }
         }
@@ -964,9 +983,16 @@ impl<'i, R: RuleType> ParserState<'i, R> {
         F: FnMut(Box<Self>) -> ParseResult<Box<Self>>,
     {
         self = self.inc_call_check_limit()?;
+        #[cfg(pest_parser_pest_verif)]
+        let mut verif_before = self.position.pos();
         let mut result = f(self);
 
         loop {
+            #[cfg(pest_parser_pest_verif)]
+            if let Ok(ref state) = result {
+                crate::verif::repeat_iter(verif_before, state.position.pos());
+                verif_before = state.position.pos();
+            }
             match result {
                 Ok(state) => result = f(state),
                 Err(state) => return Ok(state),
@@ -1783,6 +1809,93 @@ impl<'i, R: RuleType> ParserState<'i, R> {
 }
 
 /// Helper function used only in case stack operations (PUSH/POP) are used in grammar.
+#[cfg(pest_parser_pest_verif)]
+impl<'i, R: RuleType> ParserState<'i, R> {
+    fn verif_stack_strings(&self) -> Vec<String> {
+        self.stack[0..self.stack.len()]
+            .iter()
+            .map(|s| String::from(s.as_borrowed_or_rc().as_str()))
+            .collect()
+    }
+
+    fn verif_calls(&self) -> (usize, usize) {
+        self.call_tracker.current_call_limit.unwrap_or((0, 0))
+    }
+
+    fn verif_record_final(&self, ok: bool) {
+        crate::verif::set_final(|| crate::verif::Final {
+            ok,
+            pos: self.position.pos(),
+            attempt_pos: self.attempt_pos,
+            stack: self.verif_stack_strings(),
+            calls: self.verif_calls().0,
+            limit: self.verif_calls().1,
+            queue_len: self.queue.len(),
+        });
+    }
+
+    fn verif_rule_exit(&self, rule: R, ok: bool, start: usize) {
+        crate::verif::emit(|| crate::verif::Event::RuleExit {
+            rule: alloc::format!("{:?}", rule),
+            ok,
+            start,
+            end: self.position.pos(),
+            lookahead: self.lookahead as u8,
+            atomicity: self.atomicity as u8,
+        });
+    }
+
+    /// Read-only copy of the complete observable state (monitoring builds only).
+    pub fn verif_snapshot(&self) -> crate::verif::Snapshot {
+        crate::verif::Snapshot {
+            pos: self.position.pos(),
+            queue: self
+                .queue
+                .iter()
+                .map(|t| match t {
+                    QueueableToken::Start {
+                        end_token_index,
+                        input_pos,
+                    } => (true, *input_pos, None, None, *end_token_index),
+                    QueueableToken::End {
+                        start_token_index,
+                        rule,
+                        tag,
+                        input_pos,
+                    } => (
+                        false,
+                        *input_pos,
+                        Some(alloc::format!("{:?}", rule)),
+                        tag.map(String::from),
+                        *start_token_index,
+                    ),
+                })
+                .collect(),
+            stack: self.verif_stack_strings(),
+            stack_snapshots: self.stack.verif_snapshot_depth(),
+            lookahead: self.lookahead as u8,
+            atomicity: self.atomicity as u8,
+            attempt_pos: self.attempt_pos,
+            pos_attempts: self
+                .pos_attempts
+                .iter()
+                .map(|r| alloc::format!("{:?}", r))
+                .collect(),
+            neg_attempts: self
+                .neg_attempts
+                .iter()
+                .map(|r| alloc::format!("{:?}", r))
+                .collect(),
+            calls: self.verif_calls().0,
+        }
+    }
+
+    /// Checks the backtracking stack's internal bookkeeping (monitoring builds only).
+    pub fn verif_check_stack(&self) -> Result<(), String> {
+        self.stack.verif_check_invariants()
+    }
+}
+
 fn constrain_idxs(start: i32, end: Option<i32>, len: usize) -> Option<Range<usize>> {
     let start_norm = normalize_index(start, len)?;
     let end_norm = end.map_or(Some(len), |e| normalize_index(e, len))?;
